@@ -33,12 +33,10 @@ theorem pc_congr {s s' : TState} (h : s'.pcs = s.pcs) (t : Nat) : s'.pc t = s.pc
 theorem q_congr {s s' : TState} (h : s'.queues = s.queues) (q : Nat) : s'.q q = s.q q := by
   simp [TState.q, h]
 
-@[simp] theorem pc_mk (qs lv a m pcs d lt c) (t : Nat) :
-    (TState.mk qs lv a m pcs d lt c).pc t = pcs[t]?.getD .idle := rfl
-@[simp] theorem q_mk (qs lv a m pcs d lt c) (q : Nat) :
-    (TState.mk qs lv a m pcs d lt c).q q = qs[q]?.getD {} := rfl
-@[simp] theorem pcs_getD (s : TState) (t : Nat) : s.pcs[t]?.getD PC.idle = s.pc t := rfl
-@[simp] theorem queues_getD (s : TState) (q : Nat) : s.queues[q]?.getD ({} : TQ) = s.q q := rfl
+@[simp] theorem pc_mk_same (s : TState) (qs lv a m d lt c) (t : Nat) :
+    (TState.mk qs lv a m s.pcs d lt c).pc t = s.pc t := rfl
+@[simp] theorem q_mk_same (s : TState) (lv a m pcs d lt c) (q : Nat) :
+    (TState.mk s.queues lv a m pcs d lt c).q q = s.q q := rfl
 
 @[simp] theorem setQ_pc (s : TState) (q f) (t : Nat) : (s.setQ q f).pc t = s.pc t := rfl
 @[simp] theorem setPc_q (s : TState) (t p) (q : Nat) : (s.setPc t p).q q = s.q q := rfl
@@ -87,14 +85,37 @@ theorem q_of_not_lt (s : TState) {q : Nat} (h : ¬ q < s.queues.length) : s.q q 
 
 /-- the queue table after `execute_new_loop` created a queue -/
 theorem q_append (qs : List TQ) (q : Nat) :
-    (qs ++ [({} : TQ)])[q]?.getD {} = qs[q]?.getD {} := by
-  simp only [List.getElem?_append]
+    (qs ++ [({} : TQ)]).getD q {} = qs.getD q {} := by
+  simp only [List.getD_eq_getElem?_getD, List.getElem?_append]
   split
   · rfl
   · rename_i h
     have : qs[q]? = none := by simp; omega
     rw [this]
     by_cases h' : q - qs.length = 0 <;> simp [h']
+
+@[simp] theorem q_mk_append (s : TState) (lv a m pcs d lt c) (q : Nat) :
+    (TState.mk (s.queues ++ [({} : TQ)]) lv a m pcs d lt c).q q = s.q q := q_append s.queues q
+
+/-! ### the predicates on code positions compute on constructors (equation lemmas as simp rules; the
+predicates are never unfolded on a variable) -/
+
+attribute [simp] PC.holdsMain.eq_1 PC.holdsMain.eq_2 PC.holdsMain.eq_3 PC.holdsMain.eq_4 PC.holdsMain.eq_5
+  PC.holdsMain.eq_6 PC.holdsMain.eq_7 PC.holdsMain.eq_8 PC.holdsMain.eq_9 PC.holdsMain.eq_10
+  PC.holdsMain.eq_11 PC.holdsMain.eq_12 PC.holdsMain.eq_13 PC.holdsMain.eq_14 PC.holdsMain.eq_15
+attribute [simp] PC.holdsSrc.eq_1 PC.holdsSrc.eq_2 PC.holdsSrc.eq_3 PC.holdsSrc.eq_4 PC.holdsSrc.eq_5
+attribute [simp] PC.holdsOrd.eq_1 PC.holdsOrd.eq_2 PC.holdsOrd.eq_3
+attribute [simp] PC.isSub.eq_1 PC.isSub.eq_2 PC.isSub.eq_3 PC.isSub.eq_4 PC.isSub.eq_5 PC.isSub.eq_6
+  PC.isSub.eq_7 PC.isSub.eq_8 PC.isSub.eq_9 PC.isSub.eq_10 PC.isSub.eq_11 PC.isSub.eq_12 PC.isSub.eq_13
+attribute [simp] PC.preId.eq_1 PC.preId.eq_2 PC.preId.eq_3 PC.preId.eq_4 PC.preId.eq_5 PC.preId.eq_6
+  PC.preId.eq_7 PC.preId.eq_8 PC.preId.eq_9 PC.preId.eq_10 PC.preId.eq_11 PC.preId.eq_12 PC.preId.eq_13
+  PC.preId.eq_14
+attribute [simp] PC.valid.eq_1 PC.valid.eq_2 PC.valid.eq_3 PC.valid.eq_4 PC.valid.eq_5 PC.valid.eq_6
+  PC.valid.eq_7 PC.valid.eq_8 PC.valid.eq_9 PC.valid.eq_10 PC.valid.eq_11 PC.valid.eq_12 PC.valid.eq_13
+  PC.valid.eq_14
+attribute [simp] PC.snapOK.eq_1 PC.snapOK.eq_2 PC.snapOK.eq_3 PC.snapOK.eq_4 PC.snapOK.eq_5 PC.snapOK.eq_6
+  PC.snapOK.eq_7
+attribute [simp] PC.activeOK.eq_1 PC.activeOK.eq_2 PC.activeOK.eq_3 PC.activeOK.eq_4 PC.activeOK.eq_5
 
 /-! ### the step relation -/
 
